@@ -83,7 +83,7 @@ QUIET_US = 21_000_000     # > 4 timeouts + 4 retry delays: a request left alone 
 
 class C20(F.PropCheck):
     pid = 'C20'; gen_groups = ['DnsConsts']; prop_file = 'Properties_C20'
-    IN = {'RESOLVE': 0, 'CONNCB': 1, 'DISCCB': 2, 'RECONCB': 3, 'RECV': 4, 'SENTRES': 5, 'ADV': 6, 'DUMP': 7, 'CONNRES': 8}
+    IN = {'RESOLVE': 0, 'CONNCB': 1, 'DISCCB': 2, 'RECONCB': 3, 'RECV': 4, 'SENTRES': 5, 'ADV': 6, 'DUMP': 7, 'CONNRES': 8, 'DISCRES': 9}
     OUT = {0: 'CB', 1: 'CONNECT', 2: 'DISCONNECT', 3: 'SENT', 4: 'SENTNULL', 5: 'STATE', 6: 'FAULT', 7: 'FUEL', 8: 'HANG'}
     quick_cases = 5000; thorough_cases = 200000
     trusted_extra = ['C20 driver harness/drv/c20.c + wrapper harness/wrap/c20_dns_wrap.c (real supla_esp_dns_client.c, accessors only); '
@@ -105,7 +105,7 @@ class C20(F.PropCheck):
                          sources=[os.path.join(V, 'harness', 'wrap', 'c20_dns_wrap.c'),
                                   os.path.join(V, 'harness', 'doubles', 'doubles.c'),
                                   os.path.join(V, 'harness', 'doubles', 'libc_doubles.c')],
-                         libs=['-Wl,--wrap=espconn_connect'])    # the driver scripts the return value of espconn_connect
+                         libs=['-Wl,--wrap=espconn_connect', '-Wl,--wrap=espconn_disconnect'])    # the driver scripts their return values
 
     # ---------------- generators
     def gen_name(self, rng):
@@ -236,6 +236,7 @@ class C20(F.PropCheck):
             """result of the next espconn_connect call (the call for attempt k is made by RESOLVE or by the retry timer)"""
             r = rng.choice(self.CONN_ERRS) if rng.random() < 0.25 else 0
             return r, [('CONNRES', [r], b'')]
+        if rng.random() < 0.15: evs.append(('DISCRES', [rng.choice([-12, -11, -1, 0])], b'')); tags.append('discres')
         r, ce = connres(); evs += ce + [('RESOLVE', [], name)]
         for _ in range(rng.choice([1, 2, 4, 4, 5])):
             t = self.gen_try(rng, name, tags, connfailed=(r != 0))
@@ -256,7 +257,8 @@ class C20(F.PropCheck):
             elif k < 0.45: evs.append(('RECONCB', [-11], b''))
             elif k < 0.7: evs.append(('RECV', [], self.gen_reply(rng, name, rng.choice(['good', 'bad', 'random', 'cname', 'longname']))[0]))
             elif k < 0.72: evs.append(('SENTRES', [rng.choice([0, 0, -1, -12])], b''))
-            elif k < 0.75: evs.append(('CONNRES', [rng.choice([0, 0, -4, -1, -15])], b''))
+            elif k < 0.74: evs.append(('CONNRES', [rng.choice([0, 0, -4, -1, -15])], b''))
+            elif k < 0.75: evs.append(('DISCRES', [rng.choice([0, -12, -11, -1])], b''))
             elif k < 0.95: evs.append(('ADV', [rng.choice([0, 1, 100000, 199999, 200000, 200001, 1000000, 4800000, 5000000, 5200000, 30000000, rng.randrange(0, 6000000)])], b''))
             else: evs.append(('DUMP', [], b''))
         return evs
@@ -275,7 +277,7 @@ class C20(F.PropCheck):
                 evs.insert(rng.randrange(len(evs) + 1), ('RECV', [], bytes(rng.getrandbits(8) for _ in range(65535)))); tags.append('reply:65535')
             evs.append(('DUMP', [], b''))
             cases.append(F.Case('%s%d' % (tier[0], i), evs, sorted(set(tags))))
-        return cases + self.flag_sweep()
+        return cases + self.flag_sweep() + self.boundary_sweep()
 
     def flag_sweep(self):
         """exhaustive: every value 0..255 of each of the two header flag bytes (QR/Opcode/AA/TC/RD and RA/Z/RCODE), the rest
@@ -287,6 +289,51 @@ class C20(F.PropCheck):
                 evs = [('DUMP', [], b''), ('RESOLVE', [], name), ('CONNCB', [], b''), ('RECV', [], r), ('DISCCB', [], b''),
                        ('ADV', [QUIET_US], b''), ('DUMP', [], b'')]
                 cases.append(F.Case('x%d_%d' % (which, v), evs, ['exhaustive:flags-byte%d' % (2 + which)]))
+        return cases
+
+    def boundary_sweep(self):
+        """exhaustive small families on the comparisons of the parser (each bound -1/0/+1), independent of the random part"""
+        cases = []; name = b'svr1.supla.org'; ipb = bytes([10, 20, 30, 40]); rl = req_len(name)
+        def case(cid, rep, tag):
+            evs = [('DUMP', [], b''), ('RESOLVE', [], name), ('CONNCB', [], b''), ('RECV', [], rep), ('DISCCB', [], b''),
+                   ('ADV', [QUIET_US], b''), ('DUMP', [], b'')]
+            cases.append(F.Case(cid, evs, [tag]))
+        def fixp(b): return struct.pack('>H', (len(b) - 2) & 0xFFFF) + b[2:] if len(b) >= 2 else b
+        # ANCOUNT: both bytes matter (big-endian), 0 refused
+        for an in (0, 1, 2, 255, 256, 257, 0x8000, 65535):
+            case('ban%d' % an, reply(name, [rr(b'\xc0\x0c', 1, 1, 60, ipb)], ancount=an), 'exhaustive:ancount')
+        # the tail of the answer: cut 0..16 bytes off a perfect reply (a+10 and a+14 against len), for three kinds of owner name
+        for ni, nf in enumerate([b'\xc0\x0c', qname([b'svr1', b'supla', b'org']), b'\0']):
+            good = reply(name, [rr(nf, 1, 1, 60, ipb)])
+            for k in range(0, 17):
+                case('bt%d_%d' % (ni, k), fixp(good[:len(good) - k]), 'exhaustive:tail-cut')
+            for k in (1, 2, 7):     # and extra bytes behind it
+                case('bx%d_%d' % (ni, k), fixp(good + bytes(k)), 'exhaustive:tail-extra')
+        # total length against the request length: rl-2 .. rl+2 with a consistent prefix
+        good = reply(name, [rr(b'\xc0\x0c', 1, 1, 60, ipb)])
+        for d in (-2, -1, 0, 1, 2):
+            case('bl%d' % (d + 2), fixp(good[:rl + d]), 'exhaustive:len-vs-request')
+        # length prefix off by -2..+2, +-256
+        for d in (-256, -2, -1, 1, 2, 256):
+            case('bp%d' % (d + 256), reply(name, [rr(b'\xc0\x0c', 1, 1, 60, ipb)], prefix=len(good) - 2 + d), 'exhaustive:prefix')
+        # TYPE / CLASS / RDLENGTH: each byte of each field
+        for i, (t, c, l) in enumerate([(0, 1, 4), (2, 1, 4), (0x0100, 1, 4), (0x0101, 1, 4), (1, 0, 4), (1, 2, 4), (1, 0x0100, 4), (1, 0x0101, 4),
+                                       (1, 1, 0), (1, 1, 3), (1, 1, 5), (1, 1, 0x0400), (1, 1, 0x0104)]):
+            case('bf%d' % i, reply(name, [rr(b'\xc0\x0c', t, c, 60, ipb + bytes(8), rdlen=l)]), 'exhaustive:type-class-rdlength')
+        # first byte of the owner name around the pointer test (two top bits) and the terminator
+        for b0 in (0x00, 0x01, 0x3F, 0x40, 0x7F, 0x80, 0xBF, 0xC0, 0xC1, 0xFF):
+            case('bn%d' % b0, reply(name, [rr(bytes([b0]) + b'\x0c', 1, 1, 60, ipb)]), 'exhaustive:name-first-byte')
+        # name lengths around DOMAIN_MIN / DOMAIN_MAX with a matching perfect reply
+        c = consts()
+        for n in (c['DOMAIN_MIN'] - 1, c['DOMAIN_MIN'], c['DOMAIN_MIN'] + 1, c['DOMAIN_MAX'] - 1, c['DOMAIN_MAX'], c['DOMAIN_MAX'] + 1, 100):
+            nm = (b'abcdefg.' * 13)[:n]
+            evs = [('DUMP', [], b''), ('RESOLVE', [], nm), ('CONNCB', [], b''), ('RECV', [], reply(nm, [rr(b'\xc0\x0c', 1, 1, 60, ipb)])),
+                   ('DISCCB', [], b''), ('ADV', [QUIET_US], b''), ('DUMP', [], b'')]
+            cases.append(F.Case('bd%d' % n, evs, ['exhaustive:name-length']))
+        # every result code of the doubles, alone, on a request that is otherwise left alone
+        for i, (ev, r) in enumerate([(e, r) for e in ('CONNRES', 'SENTRES', 'DISCRES') for r in (-1, -4, -7, -8, -11, -12, -15, -16, 1, 127, -128)]):
+            evs = [('DUMP', [], b''), (ev, [r], b''), ('RESOLVE', [], name), ('CONNCB', [], b''), ('ADV', [QUIET_US], b''), ('DUMP', [], b'')]
+            cases.append(F.Case('br%d' % i, evs, ['exhaustive:double-result-codes']))
         return cases
 
     # ---------------- comparison: a crash of the implementation must be a FAULT of the model and vice versa
@@ -338,12 +385,28 @@ class C20(F.PropCheck):
             rl = req_len(name)
             for e in es:
                 if e[0] == 'RESOLVE' and req_len(bytes(e[2])) is not None: seen_dls.add(req_len(bytes(e[2])))
+            if nres == 1 and not was_open:
+                # the retry schedule runs over the built-in servers: every connection made for this request goes to one of them,
+                # to each at most once, at most SERVER_COUNT in all  (observe_at: espconn_connect target addresses)
+                servers = [bytes(x) for x in consts()['SERVERS']]
+                # outputs after the RESOLVE: the CONNECT lines of this segment that follow the (li+1)-th group are not separable
+                # from earlier ones without event tags, so only segments that start with the RESOLVE are judged
+                if li == 0 or all(e[0] in ('SENTRES', 'CONNRES', 'DISCRES') for e in es[:li]):
+                    targets = [bytes(o[2]) for o in os_ if o[0] == 'CONNECT']
+                    for t in targets:
+                        if t not in servers:
+                            v.append('connection to %s, which is not one of the built-in DNS servers' % '.'.join(map(str, t))); break
+                    else:
+                        if len(targets) > len(servers):
+                            v.append('%d connection attempts for one resolve request (the schedule has %d servers)' % (len(targets), len(servers)))
+                        elif len(set(targets)) != len(targets):
+                            v.append('the same DNS server is tried twice for one resolve request (%s)' % ' '.join('.'.join(map(str, t)) for t in targets))
             if nres == 1:
                 # exactly once, when the request was left alone long enough at the end of its segment
                 quiet = 0
                 for e in reversed(after):
                     if e[0] == 'ADV': quiet += e[1][0] if e[1] else 0
-                    elif e[0] in ('SENTRES', 'CONNRES', 'RECONCB'): continue
+                    elif e[0] in ('SENTRES', 'CONNRES', 'DISCRES', 'RECONCB'): continue
                     else: break
                 if quiet >= QUIET_US and len(cbs) == 0:
                     v.append('resolve request for a %d-character name never completed: no callback after %d us without network events' % (len(c_name(name)), quiet))
